@@ -212,8 +212,8 @@ def conclude(prop, mod, tier, seed, cases, results, t0, write_evidence=True):
             counters[k] = counters.get(k, 0) + v
         s = r.get('sig')
         if s is not None:
-            if isinstance(s, list) and s and isinstance(s[0], list):
-                for x in s:
+            if isinstance(s, dict) and 'multi' in s:
+                for x in s['multi']:
                     sigs.add(json.dumps(x, sort_keys=True))
             else:
                 sigs.add(json.dumps(s, sort_keys=True))
